@@ -7,12 +7,14 @@ change, and a Float twin only sees it if the stream happens to contain the trigg
 the public functions of the numeric modules are therefore wrapped (harness-side monkeypatching, no source hook):
 
 * mutation guard: ndarray / list arguments are snapshotted before the call and compared bit-for-bit afterwards;
-* history probe (first PROBE_FIRST top-level calls of each function, then every PROBE_EVERY-th): on deep copies of
-  the arguments `a`, with `p` = arguments of an earlier, different call of the same function:
-      near   f(a); r1 = f(a*(1+-1e-7)); f(p); r2 = f(a*(1+-1e-7))        -- memo keyed on "close enough"
-      alias  f(b) with b = copy(a); b *= (1+-1e-3) in place; r1 = f(b); f(p); r2 = f(copy(b))   -- cache holding a reference
-      repeat r1 = f(a) directly after f(a); f(p); r2 = f(a)                -- any other dependence on the previous call
-  r1 and r2 are results of the SAME argument values after different histories; they must be bit-identical.
+* history probe (first PROBE_FIRST top-level calls of each function, every PROBE_EVERY-th after that, and the first calls
+  whose arguments contain an exact special value such as 0.0): the result must be what the function computes from the
+  same argument values in a PRISTINE copy of its module (the module source executed into a fresh namespace, i.e. with
+  no call history and empty module-level state; < 1 ms).  Compared bit-for-bit:
+      live    the result of the real call itself, in the history the stream happened to produce
+      near    f(a) was just called; now f(a*(1+1e-7))                          -- memo keyed on "close enough" / rounded keys
+      alias   f(b); b *= 1.001 in place (the caller re-uses its container); f(b)  -- cache holding a reference
+      repeat  f(a) a second time                                               -- state machines driven by repeated calls
 * dtype probe (same schedule): integer-valued arguments passed once as floats and once as Python ints / integer arrays
   (a random subset of the arguments whose components are 0 or of magnitude >= 1, rounded to integers first) must give
   the same result to 1e-9: the properties quantify over values, not over the numeric type a caller happens to use.
@@ -30,14 +32,18 @@ MODULES = ('xfab.tools', 'xfab.laue', 'xfab.detector', 'xfab.symmetry', 'xfab.st
 SKIP = {'trans_orientation', 'image_flipping'}     # return views by design; never write to their argument
 # history probe: only functions whose contract is a deterministic value (the reflection generators draw random
 # projection weights; readers / classes / plotting are not value functions)
-NO_PROBE = {'genhkl', 'genhkl_all', 'genhkl_base', 'genhkl_unique', 'reduce_cell', 'StructureFactor', 'multiplicity',
-            'int_intensity', 'interpolate_background', 'trans_orientation', 'image_flipping'}
+NO_PROBE = {'genhkl_all', 'int_intensity', 'interpolate_background', 'trans_orientation', 'image_flipping',
+            'CIFopen', 'CIFread', 'PDBread'}
+SLOW = {'genhkl', 'genhkl_base', 'genhkl_unique', 'reduce_cell', 'StructureFactor', 'multiplicity'}   # probed sparsely
 NO_DTYPE = set()
 PROBE_FIRST = 6
 PROBE_EVERY = 53
 _depth = [0]
 _count = {}
 _prev = {}
+_nspecial = {}
+_recent = {}        # module -> the last top-level calls (name, args, kwargs), most recent last
+_CODE = {}
 STATS = {'probes': 0, 'calls': 0}
 
 
@@ -219,66 +225,117 @@ def _outcome_bits(o):
     return o[1].encode() if o[0] == 'raise' else _bits(o[1])
 
 
-def _probe(modname, name, f, args, kw):
-    key = (modname, name)
-    prev = _prev.get(key)
-    idx = [i for i, a in enumerate(args) if _numeric(a)]
+def _fresh(modname, name):
+    """the function `name` in a pristine copy of its module: the source executed into a fresh namespace"""
+    import sys
+    m = sys.modules[modname]
+    path = m.__file__
+    if modname not in _CODE:
+        import warnings
+        with warnings.catch_warnings():
+            warnings.simplefilter('ignore')
+            _CODE[modname] = compile(open(path).read(), path, 'exec')
+    ns = {'__name__': modname, '__file__': path, '__package__': modname.rsplit('.', 1)[0]}
+    exec(_CODE[modname], ns)
+    return ns[name]
+
+
+def _has_special(args):
+    for a in args:
+        if isinstance(a, (float, np.floating)) and a == 0.0:
+            return True
+        if isinstance(a, (list, tuple)) and any(isinstance(x, (float, np.floating)) and x == 0.0 for x in a):
+            return True
+    return False
+
+
+def _record(modname, name, kind, args, kw, r1, r2, first=None):
+    if len(HISTORY_EVENTS) < 20:
+        HISTORY_EVENTS.append({'fn': '%s.%s' % (modname.split('.')[-1], name), 'scenario': kind, 'args': _plain(args), 'kwargs': _plain(kw),
+                               'first_call_args': _plain(first) if first is not None else None,
+                               'preceding_calls': [[n_, _plain(a_), _plain(k_)] for n_, a_, k_ in list(_recent.get(modname, []))[:-1]]
+                               if kind == 'live' else None,
+                               'result_in_used_module': _plain(r1[1]) if r1[0] == 'ok' else 'raised ' + str(r1[1]),
+                               'result_in_pristine_module': _plain(r2[1]) if r2[0] == 'ok' else 'raised ' + str(r2[1])})
+
+
+def _probe(modname, name, f, a0, kw, live):
+    """a0: deep copy of the arguments taken BEFORE the real call; live: outcome of the real call"""
+    STATS['probes'] += 1
+    b_live = _outcome_bits(live)
+    if b_live is None:
+        return
+    # live: the real call, in the history the stream produced, against the pristine module
+    ref = _call(_fresh(modname, name), copy.deepcopy(a0), copy.deepcopy(kw))
+    if _outcome_bits(ref) != b_live:
+        _record(modname, name, 'live', a0, kw, live, ref)
+        return
+    # repeat
+    r1 = _call(f, copy.deepcopy(a0), copy.deepcopy(kw))
+    if _outcome_bits(r1) != b_live:
+        _record(modname, name, 'repeat', a0, kw, r1, ref, first=a0)
+        return
+    idx = [i for i, a in enumerate(a0) if _numeric(a)]
     if not idx:
         return
-    cur = copy.deepcopy(args)
-    if prev is None or _bits([a for a in prev if _numeric(a)]) == _bits([a for a in cur if _numeric(a)]):
-        _prev.setdefault(key, cur)
+    # near
+    near = tuple(_scaled(a, 1 + 1e-7) if i in idx else copy.deepcopy(a) for i, a in enumerate(a0))
+    r1 = _call(f, copy.deepcopy(near), copy.deepcopy(kw))
+    r2 = _call(_fresh(modname, name), copy.deepcopy(near), copy.deepcopy(kw))
+    if _outcome_bits(r1) != _outcome_bits(r2) and _outcome_bits(r1) is not None and _outcome_bits(r2) is not None:
+        _record(modname, name, 'near', near, kw, r1, r2, first=a0)
         return
-    STATS['probes'] += 1
-    scen = []
-    near = tuple(_scaled(a, 1 + 1e-7) if i in idx else copy.deepcopy(a) for i, a in enumerate(cur))
-    scen.append(('near', [copy.deepcopy(cur)], near, near))
-    if any(isinstance(cur[i], (list, np.ndarray)) for i in idx):
-        scen.append(('alias', None, None, None))
-    scen.append(('repeat', [copy.deepcopy(cur)], cur, cur))
-    for kind, first, a1, a2 in scen:
-        if kind == 'alias':
-            b0 = copy.deepcopy(cur)
-            _call(f, b0, kw)                                   # may leave a reference to b0's containers behind
-            for i in idx:
-                if isinstance(b0[i], (list, np.ndarray)):
-                    _scale_inplace(b0[i], 1 + 1e-3)            # the caller re-uses its array for the next cell/matrix
-            r1 = _call(f, b0, kw)
-            hist1 = [_plain(cur), 'in-place *=1.001 of the same containers', _plain(b0)]
-            _call(f, copy.deepcopy(prev), kw)
-            fresh = copy.deepcopy(b0)
-            r2 = _call(f, fresh, kw)
-            a_rep = b0
-        else:
-            for a in first:
-                _call(f, a, kw)
-            r1 = _call(f, copy.deepcopy(a1), kw)
-            hist1 = [_plain(x) for x in first] + [_plain(a1)]
-            _call(f, copy.deepcopy(prev), kw)
-            r2 = _call(f, copy.deepcopy(a2), kw)
-            a_rep = a1
-        b1, b2 = _outcome_bits(r1), _outcome_bits(r2)
-        if b1 is None or b2 is None:
+    # alias
+    if any(isinstance(a0[i], (list, np.ndarray)) for i in idx):
+        b0 = copy.deepcopy(a0)
+        _call(f, b0, copy.deepcopy(kw))
+        for i in idx:
+            if isinstance(b0[i], (list, np.ndarray)):
+                _scale_inplace(b0[i], 1 + 1e-3)
+        r1 = _call(f, b0, copy.deepcopy(kw))
+        r2 = _call(_fresh(modname, name), copy.deepcopy(b0), copy.deepcopy(kw))
+        if _outcome_bits(r1) != _outcome_bits(r2) and _outcome_bits(r1) is not None and _outcome_bits(r2) is not None:
+            _record(modname, name, 'alias', b0, kw, r1, r2, first=a0)
             return
-        if b1 != b2 and len(HISTORY_EVENTS) < 20:
-            HISTORY_EVENTS.append({'fn': '%s.%s' % (modname.split('.')[-1], name), 'scenario': kind,
-                                   'args': _plain(a_rep), 'first_call_args': _plain(cur), 'other_call_args': _plain(prev),
-                                   'history_a': hist1, 'result_after_history_a': _plain(r1[1]),
-                                   'result_after_history_b': _plain(r2[1])})
-            return
-    _prev[key] = cur
 
 
 def _wrap(modname, name, f):
     probe_ok = name not in NO_PROBE and not name.startswith('_')
+    slow = name in SLOW
 
     @functools.wraps(f)
     def g(*args, **kw):
         snaps = [(_snap(a), a) for a in args]
         top = _depth[0] == 0
+        probe_now = False
+        if top:
+            import collections
+            _recent.setdefault(modname, collections.deque(maxlen=10)).append((name, args, kw))
+        if top and probe_ok:
+            STATS['calls'] += 1
+            key = (modname, name)
+            c = _count[key] = _count.get(key, 0) + 1
+            if slow:
+                probe_now = c <= 3 or c % (PROBE_EVERY * 4) == 0
+            else:
+                probe_now = c <= PROBE_FIRST + 1 or c % PROBE_EVERY == 0
+                if not probe_now and _nspecial.get(key, 0) < 8 and _has_special(args):
+                    _nspecial[key] = _nspecial.get(key, 0) + 1
+                    probe_now = True
+            if probe_now:
+                try:
+                    a0, k0 = copy.deepcopy(args), copy.deepcopy(kw)
+                except Exception:
+                    probe_now = False
         _depth[0] += 1
+        live = None
         try:
-            return f(*args, **kw)
+            res = f(*args, **kw)
+            live = ('ok', res)
+            return res
+        except Exception as e:
+            live = ('raise', type(e).__name__)
+            raise
         finally:
             _depth[0] -= 1
             for i, (s, a) in enumerate(snaps):
@@ -286,22 +343,19 @@ def _wrap(modname, name, f):
                     EVENTS.append({'fn': '%s.%s' % (modname.split('.')[-1], name), 'arg_index': i,
                                    'before': np.asarray(s[1], float).tolist(), 'after': np.asarray(a, float).tolist(),
                                    'all_args': [[t[0][0], _plain(t[0][1])] if t[0] is not None else ['other', _plain(t[1])] for t in snaps]})
-            if top and probe_ok and not kw:
-                STATS['calls'] += 1
-                c = _count[(modname, name)] = _count.get((modname, name), 0) + 1
-                if c <= PROBE_FIRST + 1 or c % PROBE_EVERY == 0:
-                    _depth[0] += 1
-                    try:
-                        _probe(modname, name, f, args, kw)
-                    except Exception:
-                        pass
-                    try:
-                        if name not in NO_DTYPE:
-                            _dtype_probe(modname, name, f, args, kw)
-                    except Exception:
-                        pass
-                    finally:
-                        _depth[0] -= 1
+            if probe_now and live is not None:
+                _depth[0] += 1
+                try:
+                    _probe(modname, name, f, a0, k0, live)
+                except Exception:
+                    pass
+                try:
+                    if name not in NO_DTYPE and not slow and not k0:
+                        _dtype_probe(modname, name, f, a0, k0)
+                except Exception:
+                    pass
+                finally:
+                    _depth[0] -= 1
     g.__purity_guard__ = True
     return g
 
@@ -341,9 +395,9 @@ def violations():
             continue
         seen.add(k)
         out.append(dict(e, purity='history', known_id=None,
-                        what='result depends on the call history, not only on the argument values (scenario "%s": the same '
-                             'arguments give different results after different preceding calls)' % e['scenario'],
-                        observed=e['result_after_history_a'], expected=e['result_after_history_b']))
+                        what='result depends on the call history, not only on the argument values (scenario "%s": the module as used '
+                             'so far and a pristine copy of the module disagree on the same arguments)' % e['scenario'],
+                        observed=e['result_in_used_module'], expected=e['result_in_pristine_module']))
     for e in DTYPE_EVENTS:
         k = (e['fn'], 'dtype')
         if k in seen:
@@ -386,24 +440,32 @@ def replay(v):
         bad = _bits(args[k]) != _bits(before)
         print('replay %s: argument %s' % (v['fn'], 'MODIFIED in place -> VIOLATION' if bad else 'unchanged'))
         return 1 if bad else 0
-    cur = [conv(x) for x in v['first_call_args']]
-    prev = [conv(x) for x in v['other_call_args']]
     args = [conv(x) for x in v['args']]
+    kw = v.get('kwargs') or {}
+    first = [conv(x) for x in v['first_call_args']] if v.get('first_call_args') is not None else None
+    fresh = _fresh('xfab.' + modname, name)
     if v['scenario'] == 'alias':
-        b0 = copy.deepcopy(cur)
-        _call(f, b0, {})
+        b0 = copy.deepcopy(first)
+        _call(f, b0, dict(kw))
         for x in b0:
-            if isinstance(x, (list, np.ndarray)):
+            if isinstance(x, (list, np.ndarray)) and _numeric(x):
                 _scale_inplace(x, 1 + 1e-3)
-        r1 = _call(f, b0, {})
-        _call(f, copy.deepcopy(prev), {})
-        r2 = _call(f, copy.deepcopy(b0), {})
+        r1 = _call(f, b0, dict(kw))
+        r2 = _call(fresh, copy.deepcopy(b0), dict(kw))
+    elif v['scenario'] == 'live':
+        for n_, a_, k_ in v.get('preceding_calls') or []:
+            g_ = getattr(m, n_, None)
+            g_ = getattr(g_, '__wrapped__', g_)
+            if g_ is not None:
+                _call(g_, [conv(x) for x in a_], dict(k_ or {}))
+        r1 = _call(f, copy.deepcopy(args), dict(kw))
+        r2 = _call(fresh, copy.deepcopy(args), dict(kw))
     else:
-        _call(f, copy.deepcopy(cur), {})
-        r1 = _call(f, copy.deepcopy(args), {})
-        _call(f, copy.deepcopy(prev), {})
-        r2 = _call(f, copy.deepcopy(args), {})
+        if first is not None:
+            _call(f, copy.deepcopy(first), dict(kw))
+        r1 = _call(f, copy.deepcopy(args), dict(kw))
+        r2 = _call(fresh, copy.deepcopy(args), dict(kw))
     bad = _outcome_bits(r1) != _outcome_bits(r2)
-    print('replay %s (%s): after history A %s | after history B %s -> %s' % (
+    print('replay %s (%s): used module %s | pristine module %s -> %s' % (
         v['fn'], v['scenario'], _plain(r1[1]), _plain(r2[1]), 'VIOLATION' if bad else 'holds'))
     return 1 if bad else 0
